@@ -22,6 +22,50 @@ Theorem C15_healthy_never_killed : forall c ops, cfg_ok c -> xs_ok ops ->
 Proof. exact healthy_never_killed. Qed.
 Print Assumptions C15_healthy_never_killed.
 
+(* ... in the property's own direction: at the end of EVERY timeline - hence at every op boundary
+   of every timeline - a transport whose last received byte is less than Time + Timeout old (in
+   particular one that receives a byte at least once every Time) is not closed. *)
+Theorem C15_healthy_alive : forall c ops, cfg_ok c -> xs_ok ops ->
+  let s := kreach c (kinit c) ops in
+  k_now s < k_last s + kc_time c + kc_timeout c -> k_closed s = false.
+Proof. exact healthy_alive. Qed.
+Print Assumptions C15_healthy_alive.
+
+(* "an endpoint that receives nothing from its peer closes the connection no later than Timeout
+   after the later of (last received byte + Time) and the moment keepalive became applicable".
+   For EVERY timeline (waits, reads, stream opens/closes, dormancy and wake-ups, GOAWAY/draining,
+   ping acks on/off), with
+     t0 = k_last s       the instant of the last byte received on the timeline (KRead, GOAWAY or
+                         ping ack; "nothing is read after t0" holds by definition of last),
+     a  = appl_since     the moment keepalive last became applicable (applicable c s = a stream
+                         is open or PermitWithoutStream; 0 when applicable from the start; it has
+                         been applicable without interruption since a),
+   if keepalive is applicable at the end and the clock is past max(t0 + Time, a) + Timeout, then
+   the transport is closed, it was closed (k_timer = instant of the close) no later than
+   max(t0 + Time, a) + Timeout, and the close event is in the trace.  (k_now is the model clock:
+   per op the executor fires at most fuel_for = 2*dt/min(Time,Timeout)+6 timers, ample for every
+   decodable op.) *)
+Theorem C15_dead_peer_closed : forall c ops, cfg_ok c -> xs_ok ops ->
+  let s := kreach c (kinit c) ops in
+  let t0 := k_last s in
+  let a := appl_since c ops in
+  applicable c s = true ->
+  Z.max (t0 + kc_time c) a + kc_timeout c < k_now s ->
+  k_closed s = true /\ k_timer s <= Z.max (t0 + kc_time c) a + kc_timeout c /\
+  shows_close (krun c (kinit c) ops) = true.
+Proof. exact dead_peer_closed. Qed.
+Print Assumptions C15_dead_peer_closed.
+
+(* the hypotheses are met by the plain dead peer: Time 5 s, Timeout 2 s, a stream from 1 ms on,
+   nothing ever read: applicable since a = 1 ms, t0 = 0, closed at 7.000 s = t0 + Time + Timeout *)
+Example C15_dead_peer_closed_witness :
+  let c := mkkc 5000 2000 false in
+  let ops := [(0, KOpen); (4, KWait); (0, KWait); (1, KWait); (1, KWait); (5, KWait)] in
+  let s := kreach c (kinit c) ops in
+  applicable c s = true /\ appl_since c ops = 1 /\ k_last s = 0 /\ k_now s = 11006 /\
+  k_closed s = true /\ k_timer s = 7000.
+Proof. vm_compute. repeat split; reflexivity. Qed.
+
 (* the witness against the first repair (7e22c66 alone closed this peer at 4.003 s): Time 2 s,
    Timeout 1 s, dormant; a byte at 3.002 s, a stream at 3.003 s.  No ping on wake-up; the ping
    comes at 5.002 s = t0 + Time and the still silent peer is closed at 6.002 s. *)
@@ -32,26 +76,27 @@ Theorem C15_wake_does_not_kill_recently_heard_peer :
 Proof. exact wake_does_not_kill_recently_heard_peer. Qed.
 Print Assumptions C15_wake_does_not_kill_recently_heard_peer.
 
-(* Dead-peer bound, in four steps (partial: not assembled into one statement over all timelines).
+(* The steps of the loop behind C15_dead_peer_closed, each for an arbitrary state (they also give
+   the exact instants, where the theorem above gives the bound).
    (1) once the loop has noticed a read L, the next firing is at max(now, L + Time); *)
-Theorem C15_dead_peer_bound_partial_timer : forall c s, k_prev s < k_last s ->
+Theorem C15_dead_peer_step_timer : forall c s, k_prev s < k_last s ->
   snd (fire c s) = [] /\ k_timer (fst (fire c s)) = Z.max (k_timer s) (k_last s + kc_time c) /\
   k_prev (fst (fire c s)) = k_last s /\ k_out (fst (fire c s)) = false.
 Proof. exact fire_observes_read. Qed.
-Print Assumptions C15_dead_peer_bound_partial_timer.
+Print Assumptions C15_dead_peer_step_timer.
 
 (* (2) a firing with nothing read since, no ping outstanding and keepalive applicable (a stream
    is open or PermitWithoutStream) sends the ping at that instant; *)
-Theorem C15_dead_peer_bound_partial_ping : forall c s, k_last s <= k_prev s -> k_out s = false ->
+Theorem C15_dead_peer_step_ping : forall c s, k_last s <= k_prev s -> k_out s = false ->
   (kc_permit c = true \/ 1 <= k_streams s) ->
   snd (fire c s) = [(6, k_timer s)] /\ k_out (fst (fire c s)) = true /\ k_ping (fst (fire c s)) = k_timer s.
 Proof. exact fire_pings. Qed.
-Print Assumptions C15_dead_peer_bound_partial_ping.
+Print Assumptions C15_dead_peer_step_ping.
 
 (* (3) from a ping on, if nothing more is read and keepalive stays applicable, the transport is
    closed exactly Timeout after the ping, whatever the ratio Timeout / Time (k bounds the number
    of timer rounds). *)
-Theorem C15_dead_peer_bound_partial_close : forall c, cfg_ok c -> forall k s target, kinv c s ->
+Theorem C15_dead_peer_step_close : forall c, cfg_ok c -> forall k s target, kinv c s ->
   k_closed s = false -> k_dorm s = false -> k_out s = true -> k_last s <= k_prev s ->
   (kc_permit c = true \/ 1 <= k_streams s) ->
   k_left s <= Z.of_nat k * kc_time c -> k_timer s + k_left s < target ->
@@ -59,14 +104,14 @@ Theorem C15_dead_peer_bound_partial_close : forall c, cfg_ok c -> forall k s tar
   k_closed (fst r) = true /\ k_timer (fst r) = k_ping s + kc_timeout c /\
   exists pre, snd r = pre ++ [(8, k_ping s + kc_timeout c)].
 Proof. exact ping_to_close. Qed.
-Print Assumptions C15_dead_peer_bound_partial_close.
+Print Assumptions C15_dead_peer_step_close.
 
 (* (4) a wake-up from dormancy at a (first stream after an idle period): if a byte was read while
    dormant (t0 = last) it is treated as read activity - no ping before t0 + Time, ping at once
    if that is already past; otherwise the ping goes out at a.  With (2) and (3): a silent peer
    is closed at max(t0 + Time, a) + Timeout.  (A stream can only be opened on a transport that
    is not draining.) *)
-Theorem C15_dead_peer_bound_partial_wake : forall c s, cfg_ok c -> kinv c s -> k_closed s = false -> k_dorm s = true ->
+Theorem C15_dead_peer_step_wake : forall c s, cfg_ok c -> kinv c s -> k_closed s = false -> k_dorm s = true ->
   k_drain s = false ->
   let r := act c s KOpen in
   k_dorm (fst r) = false /\
@@ -77,7 +122,7 @@ Theorem C15_dead_peer_bound_partial_wake : forall c s, cfg_ok c -> kinv c s -> k
   (k_last s <= k_prev s -> snd r = [(6, k_now s)] /\ k_ping (fst r) = k_now s /\ k_out (fst r) = true /\
                            k_timer (fst r) + k_left (fst r) = k_now s + kc_timeout c).
 Proof. exact wake_step. Qed.
-Print Assumptions C15_dead_peer_bound_partial_wake.
+Print Assumptions C15_dead_peer_step_wake.
 
 (* the witness of the former stale-read defect meets the bound: byte at 92.002 s while dormant,
    stream at 192.003 s, one ping, closed at 197.003 s = max(t0 + Time, a) + Timeout *)
@@ -91,13 +136,13 @@ Print Assumptions C15_dormancy_wake_bound_witness.
 (* (5) keepalive stays applicable on a transport that is draining after a graceful GOAWAY (a
    stream is still open): for the loop the GOAWAY is a read and nothing else, and (1)-(3) are
    stated for every state, draining ones included. *)
-Theorem C15_dead_peer_bound_partial_draining : forall c s, k_closed s = false -> 1 <= k_streams s ->
+Theorem C15_dead_peer_step_draining : forall c s, k_closed s = false -> 1 <= k_streams s ->
   let r := act c s KGoAway in
   snd r = [] /\ k_drain (fst r) = true /\ k_last (fst r) = k_now s /\ k_closed (fst r) = false /\
   k_timer (fst r) = k_timer s /\ k_out (fst r) = k_out s /\ k_left (fst r) = k_left s /\
   k_prev (fst r) = k_prev s /\ k_dorm (fst r) = k_dorm s /\ k_streams (fst r) = k_streams s.
 Proof. exact goaway_only_a_read. Qed.
-Print Assumptions C15_dead_peer_bound_partial_draining.
+Print Assumptions C15_dead_peer_step_draining.
 
 (* ... witness: Time 5 s, Timeout 2 s; a stream at 1 ms, GOAWAY at 2 ms, then silence: ping at
    5.002 s = GOAWAY + Time, closed at 7.002 s *)
@@ -124,6 +169,16 @@ Theorem C15_no_false_goaway : forall c s, 0 <= p_strikes s <= 2 ->
 Proof. exact no_false_goaway. Qed.
 Print Assumptions C15_no_false_goaway.
 
+(* ... over whole timelines: with a client that respects the policy (polite: every PING at least
+   MinTime after the previous one while it has streams or PermitWithoutStream, at least two hours
+   otherwise), whatever else happens (streams opened and finished, waits), no GOAWAY is ever sent,
+   no strike is ever recorded and the trace carries no event at all. *)
+Theorem C15_polite_client_never_goaway : forall c ops s, p_goaway s = false -> p_strikes s = 0 -> polite c s ops ->
+  p_goaway (preach c s ops) = false /\ p_strikes (preach c s ops) = 0 /\
+  Forall (fun ob => evs ob = []) (prun c s ops).
+Proof. exact polite_never_goaway. Qed.
+Print Assumptions C15_polite_client_never_goaway.
+
 (* "it does send it after a third too-early ping that is not separated from the previous ones by
    server-sent headers or data": every too-early ping without reset adds one strike, the third
    one is answered by GOAWAY(ENHANCE_YOUR_CALM = 11). *)
@@ -137,6 +192,19 @@ Theorem C15_third_strike : forall c s, p_reset s = false -> p_strikes s = 2 ->
   snd (on_ping c s) = [(7, 11)] /\ p_goaway (fst (on_ping c s)) = true.
 Proof. exact third_strike. Qed.
 Print Assumptions C15_third_strike.
+
+(* ... as one timeline: from any state without strikes (last ping in the past), three pings in a
+   row with nothing but time between them, each too early for the policy: the first two are
+   tolerated, the third is answered by GOAWAY(ENHANCE_YOUR_CALM). *)
+Theorem C15_three_early_pings : forall c s x1 x2 x3,
+  p_goaway s = false -> p_reset s = false -> p_strikes s = 0 -> 0 <= p_lastping s <= p_now s ->
+  0 <= x1 -> 0 <= x2 -> 0 <= x3 ->
+  p_now s + 1000 * x1 + 1 < p_lastping s + policy_gap c s ->
+  1000 * x2 + 1 < policy_gap c s -> 1000 * x3 + 1 < policy_gap c s ->
+  exists t1 t2 t3, prun c s [(x1, PPing); (x2, PPing); (x3, PPing)] = [[t1]; [t2]; [t3; 7; 11]] /\
+                   p_goaway (preach c s [(x1, PPing); (x2, PPing); (x3, PPing)]) = true.
+Proof. exact three_early_pings. Qed.
+Print Assumptions C15_three_early_pings.
 
 (* The predicate evaluated on implementation traces holds on every trace of the model. *)
 Theorem C15_holds_on_every_model_trace : forall cfg ops, wf cfg ops = true ->
